@@ -48,7 +48,6 @@ Record state := {
   arr : list chan;              (* f.sendCases[firstSubSendCase:]; `cases` of the running Send is the
                                    slice arr[:s_k] of the SAME backing array *)
   lock : option owner;          (* None: the token is in f.sendLock; Some o: o took it *)
-  mu_leaked : bool;             (* f.mu was left locked by a panicking Send *)
   sndr : sid -> sender;
   rem : chan -> rpc;
   chs : chan -> chst;
@@ -63,7 +62,7 @@ Inductive label :=
 | LSendCall (s : sid)
 | LSendLock (s : sid)                  (* <-f.sendLock returned *)
 | LSendMerge (s : sid)                 (* f.mu section: sendCases += inbox; then cases := sendCases *)
-| LSendBadType (s : sid)               (* f.mu section, typecheck fails: token put back, panic with f.mu held *)
+| LSendBadType (s : sid)               (* f.mu section, typecheck fails: token put back, f.mu released, panic *)
 | LTryOk (s : sid) (c : chan)          (* cases[i].Chan.TrySend succeeded *)
 | LTryFail (s : sid) (c : chan)        (* ... failed *)
 | LSelectEnter (s : sid)
@@ -111,35 +110,31 @@ Definition deactivate (l : list chan) (k i : nat) : list chan :=
 
 (* ---------------------------------------------------------------- state updates *)
 Definition set_snd (st : state) (s : sid) (x : sender) : state :=
-  {| inbox := inbox st; arr := arr st; lock := lock st; mu_leaked := mu_leaked st; sndr := upd (sndr st) s x; rem := rem st;
+  {| inbox := inbox st; arr := arr st; lock := lock st; sndr := upd (sndr st) s x; rem := rem st;
      chs := chs st; log := log st; nlock := nlock st; rank := rank st; panicked := panicked st |}.
 Definition set_rem (st : state) (c : chan) (x : rpc) : state :=
-  {| inbox := inbox st; arr := arr st; lock := lock st; mu_leaked := mu_leaked st; sndr := sndr st; rem := upd (rem st) c x;
+  {| inbox := inbox st; arr := arr st; lock := lock st; sndr := sndr st; rem := upd (rem st) c x;
      chs := chs st; log := log st; nlock := nlock st; rank := rank st; panicked := panicked st |}.
 Definition set_ch (st : state) (c : chan) (x : chst) : state :=
-  {| inbox := inbox st; arr := arr st; lock := lock st; mu_leaked := mu_leaked st; sndr := sndr st; rem := rem st;
+  {| inbox := inbox st; arr := arr st; lock := lock st; sndr := sndr st; rem := rem st;
      chs := upd (chs st) c x; log := log st; nlock := nlock st; rank := rank st; panicked := panicked st |}.
 Definition set_lock (st : state) (o : option owner) : state :=
-  {| inbox := inbox st; arr := arr st; lock := o; mu_leaked := mu_leaked st; sndr := sndr st; rem := rem st;
+  {| inbox := inbox st; arr := arr st; lock := o; sndr := sndr st; rem := rem st;
      chs := chs st; log := log st; nlock := nlock st; rank := rank st; panicked := panicked st |}.
 Definition set_lists (st : state) (ib ar : list chan) : state :=
-  {| inbox := ib; arr := ar; lock := lock st; mu_leaked := mu_leaked st; sndr := sndr st; rem := rem st;
+  {| inbox := ib; arr := ar; lock := lock st; sndr := sndr st; rem := rem st;
      chs := chs st; log := log st; nlock := nlock st; rank := rank st; panicked := panicked st |}.
 Definition set_log (st : state) (lg : list (sid * chan)) : state :=
-  {| inbox := inbox st; arr := arr st; lock := lock st; mu_leaked := mu_leaked st; sndr := sndr st; rem := rem st;
+  {| inbox := inbox st; arr := arr st; lock := lock st; sndr := sndr st; rem := rem st;
      chs := chs st; log := lg; nlock := nlock st; rank := rank st; panicked := panicked st |}.
 Definition set_rank (st : state) (s : sid) : state :=
-  {| inbox := inbox st; arr := arr st; lock := lock st; mu_leaked := mu_leaked st; sndr := sndr st; rem := rem st;
+  {| inbox := inbox st; arr := arr st; lock := lock st; sndr := sndr st; rem := rem st;
      chs := chs st; log := log st; nlock := S (nlock st); rank := upd (rank st) s (S (nlock st)); panicked := panicked st |}.
 Definition set_panicked (st : state) : state :=
-  {| inbox := inbox st; arr := arr st; lock := lock st; mu_leaked := mu_leaked st; sndr := sndr st; rem := rem st;
+  {| inbox := inbox st; arr := arr st; lock := lock st; sndr := sndr st; rem := rem st;
      chs := chs st; log := log st; nlock := nlock st; rank := rank st; panicked := true |}.
-Definition set_leaked (st : state) : state :=
-  {| inbox := inbox st; arr := arr st; lock := lock st; mu_leaked := true; sndr := sndr st; rem := rem st;
-     chs := chs st; log := log st; nlock := nlock st; rank := rank st; panicked := panicked st |}.
-
 Definition init : state :=
-  {| inbox := []; arr := []; lock := None; mu_leaked := false;
+  {| inbox := []; arr := []; lock := None;
      sndr := fun _ => {| s_pc := SNew; s_k := 0; s_nsent := 0 |};
      rem := fun _ => RNone;
      chs := fun _ => {| c_subd := false; c_cap := 0; c_buf := []; c_wait := 0; c_recvd := [] |};
@@ -181,7 +176,7 @@ Definition step (st : state) (l : label) : option state :=
   match l with
   (* feed.go Subscribe: f.mu.Lock(); f.inbox = append(f.inbox, cas) *)
   | LSubscribe c cap =>
-      if negb (mu_leaked st) && negb (c_subd (chs st c)) then
+      if negb (c_subd (chs st c)) then
         Some (set_ch (set_lists st (inbox st ++ [c]) (arr st)) c
                 {| c_subd := true; c_cap := cap; c_buf := c_buf (chs st c); c_wait := c_wait (chs st c); c_recvd := c_recvd (chs st c) |})
       else None
@@ -196,14 +191,14 @@ Definition step (st : state) (l : label) : option state :=
   (* Send: f.mu.Lock(); f.sendCases = append(f.sendCases, f.inbox...); f.inbox = nil; f.mu.Unlock();
            cases := f.sendCases; i := firstSubSendCase *)
   | LSendMerge s =>
-      if pc_eqb (s_pc (sndr st s)) SLocked && negb (mu_leaked st) then
+      if pc_eqb (s_pc (sndr st s)) SLocked then
         let a := arr st ++ inbox st in
         Some (set_snd (set_lists st [] a) s {| s_pc := STry 0; s_k := length a; s_nsent := 0 |})
       else None
-  (* Send: f.mu.Lock(); ...; if !f.typecheck(..) { f.sendLock <- struct{}{}; panic(..) }   (f.mu stays locked) *)
+  (* Send: f.mu.Lock(); sendCases += inbox; if !f.typecheck(..) { f.sendLock <- struct{}{}; f.mu.Unlock(); panic(..) } *)
   | LSendBadType s =>
-      if pc_eqb (s_pc (sndr st s)) SLocked && negb (mu_leaked st) then
-        Some (set_leaked (set_lock (set_snd (set_lists st [] (arr st ++ inbox st)) s {| s_pc := SPanicked; s_k := 0; s_nsent := 0 |}) None))
+      if pc_eqb (s_pc (sndr st s)) SLocked then
+        Some (set_lock (set_snd (set_lists st [] (arr st ++ inbox st)) s {| s_pc := SPanicked; s_k := 0; s_nsent := 0 |}) None)
       else None
   (* Send, fast path: if cases[i].Chan.TrySend(rvalue) { nsent++; cases = cases.deactivate(i); i-- } ; i++ *)
   | LTryOk s c =>
@@ -282,14 +277,14 @@ Definition step (st : state) (l : label) : option state :=
       if c_subd (chs st c) && rpc_eqb (rem st c) RNone then Some (set_rem st c RCalled) else None
   (* remove: f.mu.Lock(); index := f.inbox.find(ch); if index != -1 { f.inbox = f.inbox.delete(index); unlock; return } *)
   | LRemoveInbox c =>
-      if rpc_eqb (rem st c) RCalled && negb (mu_leaked st) then
+      if rpc_eqb (rem st c) RCalled then
         match cfind c (inbox st) with
         | Some idx => Some (set_rem (set_lists st (delete idx (inbox st)) (arr st)) c RDone)
         | None => None
         end
       else None
   | LRemoveNotInbox c =>
-      if rpc_eqb (rem st c) RCalled && negb (mu_leaked st) then
+      if rpc_eqb (rem st c) RCalled then
         match cfind c (inbox st) with
         | Some _ => None
         | None => Some (set_rem st c RSelecting)
